@@ -271,6 +271,114 @@ theorem C11_xpacket_delivery (s : St) (b : Box) (t : List Box) (n : Nat)
   · subst hs2; subst hs1; simp only; omega
   · subst hs2; subst hs1; simp only [List.drop_drop]; congr 1; omega
 
+theorem openBox_ok {α} (size remain offset : Int) (typ : Bytes) (body : M α) (s s2 : St) (a : α)
+    (h : body { s with chain := { size := size, remain := remain, offset := offset, flags := 0, typ := typ, lim := (s.pos : Int) + max remain 0 } :: s.chain } = (.ok a, s2)) :
+    openBox size remain offset typ body s = (.ok a, { s2 with chain := s2.chain.tail }) := by
+  unfold openBox; simp only []; rw [h]
+
+/-- inside the PRVW box (n bytes left, well nested, in the stream): the 24-byte header is read, the draining preview
+callback obtains the remaining n - 24 bytes with the header's size / width / height fields, and the box is closed -/
+theorem prvwBody_delivers (s : St) (inner : Box) (t : List Box) (N : Nat)
+    (hc : s.chain = inner :: t) (hn : inner.remain = N) (hnest : ∀ o ∈ t, inner.remain ≤ o.remain)
+    (h24 : 24 ≤ N) (hlen : N ≤ s.rest.length) (hcb : s.cfg.cb = .drain) (hp : s.cfg.hasPrvw = true) :
+    ∃ s', prvwBody t_PRVW s = (.ok (.ok ()), s') ∧
+      s'.events = { kind := "prvw",
+                    nums := [beNat (((s.rest.take 24).drop 20).take 4), beNat (((s.rest.take 24).drop 14).take 2),
+                             beNat (((s.rest.take 24).drop 16).take 2)],
+                    data := (s.rest.drop 24).take (N - 24) } :: s.events ∧
+      s'.pos = s.pos + N ∧ s'.rest = s.rest.drop N ∧ s'.chain.length = s.chain.length := by
+  have hall : ∀ k : Nat, k ≤ N → ∀ o ∈ s.chain, (k : Int) ≤ o.remain := by
+    intro k hk o ho
+    rw [hc] at ho
+    rcases List.mem_cons.mp ho with h | h
+    · subst h; omega
+    · have := hnest o h; omega
+  unfold prvwBody
+  simp only [bne_self_eq_false, Bool.false_eq_true, if_false]
+  rw [show (24 : Int) = ((24 : Nat) : Int) from rfl, bind_ok (attempt_ok (peek_ok s 24 (hall 24 (by omega)) (by omega) (by omega)))]
+  simp only []
+  rw [bind_ok (attempt_ok (discard_ok s 24 (hall 24 (by omega)) (by omega)))]
+  simp only []
+  generalize hs3 : ({ s with chain := subAll s.chain ((24 : Nat) : Int), rest := s.rest.drop 24, pos := s.pos + 24 } : St) = s3
+  have hc3 : s3.chain = { inner with remain := inner.remain - ((24 : Nat) : Int) } :: subAll t ((24 : Nat) : Int) := by
+    subst hs3; simp only [hc, subAll_cons]
+  have hcfg3 : s3.cfg = s.cfg := by subst hs3; rfl
+  rw [bind_ok (show get s3 = (.ok s3, s3) from rfl)]
+  simp only [hcfg3, hp, if_true]
+  have hcbk := callback_drain "prvw" [beNat (((s.rest.take 24).drop 20).take 4), beNat (((s.rest.take 24).drop 14).take 2), beNat (((s.rest.take 24).drop 16).take 2)]
+      s3 _ _ (N - 24) hc3 (by simp only; omega)
+      (by intro o ho
+          simp only [subAll, List.mem_map] at ho
+          obtain ⟨o', ho', rfl⟩ := ho
+          have := hnest o' ho'
+          simp only; omega)
+      (by subst hs3; simp only [List.length_drop]; omega) (by rw [hcfg3]; exact hcb)
+  obtain ⟨s4, hs4, hcbk⟩ : ∃ s4, _ = s4 ∧ callback "prvw" _ s3 = (.ok (), s4) := ⟨_, rfl, hcbk⟩
+  rw [bind_ok (attempt_ok hcbk)]
+  have hc4 : s4.chain = { inner with remain := inner.remain - ((24 : Nat) : Int) - ((N - 24 : Nat) : Int) } :: subAll (subAll t ((24 : Nat) : Int)) ((N - 24 : Nat) : Int) := by
+    subst hs4; simp only [hc3, subAll_cons]
+  have hcl := close_noop s4 _ _ hc4 (by simp only; omega)
+  rw [attempt_ok hcl]
+  refine ⟨_, rfl, ?_, ?_, ?_, ?_⟩
+  · subst hs4; subst hs3; rfl
+  · subst hs4; subst hs3; simp only; omega
+  · subst hs4; subst hs3; simp only [List.drop_drop]; congr 1; omega
+  · rw [hc4, hc]; simp [subAll]
+
+/-- **PRVW delivery.** The preview uuid box (after its 16-byte uuid): 8 bytes are skipped, the PRVW box header is read in
+place, and the preview callback obtains exactly the bytes of the PRVW box after its 24-byte header, with the size, width
+and height fields of that header; afterwards the PRVW box is consumed exactly. -/
+theorem C11_prvw_delivery (s : St) (b : Box) (t : List Box) (R N : Nat)
+    (hc : s.chain = b :: t) (hn : b.remain = R) (hnest : ∀ o ∈ t, b.remain ≤ o.remain)
+    (hN : be32 ((s.rest.drop 8).take 8) = N) (h24 : 24 ≤ N) (hfit : 8 + N ≤ R) (hlen : 8 + N ≤ s.rest.length)
+    (htyp : (((s.rest.drop 8).take 8).drop 4).take 4 = t_PRVW)
+    (hcb : s.cfg.cb = .drain) (hp : s.cfg.hasPrvw = true) :
+    ∃ s', readPreview s = (.ok (), s') ∧
+      s'.events = { kind := "prvw",
+                    nums := [beNat ((((s.rest.drop 8).take 24).drop 20).take 4), beNat ((((s.rest.drop 8).take 24).drop 14).take 2),
+                             beNat ((((s.rest.drop 8).take 24).drop 16).take 2)],
+                    data := (s.rest.drop 32).take (N - 24) } :: s.events ∧
+      s'.pos = s.pos + 8 + N ∧ s'.rest = s.rest.drop (8 + N) := by
+  have hall : ∀ k : Nat, k ≤ R → ∀ o ∈ s.chain, (k : Int) ≤ o.remain := by
+    intro k hk o ho
+    rw [hc] at ho
+    rcases List.mem_cons.mp ho with h | h
+    · subst h; omega
+    · have := hnest o h; omega
+  unfold readPreview
+  rw [show (8 : Int) = ((8 : Nat) : Int) from rfl, bind_ok (attempt_ok (discard_ok s 8 (hall 8 (by omega)) (by omega)))]
+  simp only []
+  generalize hs1 : ({ s with chain := subAll s.chain ((8 : Nat) : Int), rest := s.rest.drop 8, pos := s.pos + 8 } : St) = s1
+  have hc1 : s1.chain = { b with remain := b.remain - ((8 : Nat) : Int) } :: subAll t ((8 : Nat) : Int) := by subst hs1; simp only [hc, subAll_cons]
+  have hr1 : s1.rest = s.rest.drop 8 := by subst hs1; rfl
+  have hp1 : s1.pos = s.pos + 8 := by subst hs1; rfl
+  have hcfg1 : s1.cfg = s.cfg := by subst hs1; rfl
+  have hev1 : s1.events = s.events := by subst hs1; rfl
+  have hall1 : ∀ k : Nat, k + 8 ≤ R → ∀ o ∈ s1.chain, (k : Int) ≤ o.remain := by
+    intro k hk o ho
+    rw [hc1] at ho
+    rcases List.mem_cons.mp ho with h | h
+    · subst h; simp only; omega
+    · simp only [subAll, List.mem_map] at h
+      obtain ⟨o', ho', rfl⟩ := h
+      have := hnest o' ho'
+      simp only; omega
+  have hl1 : s1.rest.length = s.rest.length - 8 := by rw [hr1]; simp
+  rw [bind_ok (attempt_ok (peek_ok s1 8 (hall1 8 (by omega)) (by omega) (by omega)))]
+  simp only []
+  rw [bind_ok (head_ok s1 _ _ hc1)]
+  rw [hr1, hN, htyp]
+  -- inside the PRVW box
+  obtain ⟨s4, hbody, hev, hpos, hrest, hlen4⟩ := prvwBody_delivers
+    { s1 with chain := { size := (N : Int), remain := (N : Int), offset := _, flags := 0, typ := t_PRVW, lim := (s1.pos : Int) + max (N : Int) 0 } :: s1.chain }
+    _ s1.chain N rfl rfl (by intro o ho; exact hall1 N (by omega) o ho) h24 (by simp only [hl1]; omega) (by simp only [hcfg1]; exact hcb) (by simp only [hcfg1]; exact hp)
+  rw [bind_ok (openBox_ok _ _ _ _ _ s1 s4 _ hbody)]
+  simp only [pure_run]
+  refine ⟨_, rfl, ?_, ?_, ?_⟩
+  · simp only [hev, hr1, hev1, List.drop_drop]
+  · simp only [hpos, hp1]
+  · simp only [hrest, hr1, List.drop_drop]
+
 /-! ### any callback: whatever a callback does with the reader it is handed, it stays inside every open box -/
 
 inductive Op where
